@@ -425,7 +425,7 @@ class ActionTextGenWalker(Walker):
     def accept_V_BRV(self, inst):
         s_brg = one(inst).S_BRG[828]()
         s_ee = one(s_brg).S_EE[19]()
-        self.buf('bridge ', s_ee.Key_Lett, '::', s_brg.Name)
+        self.buf(s_ee.Key_Lett, '::', s_brg.Name)
         self.buf('(')
         first_filter = lambda sel: one(sel).V_PAR[816, 'succeeds']() is None
         self.accept(any(inst).V_PAR[810](first_filter))
